@@ -347,6 +347,15 @@ def run(rep):
         elif rn.violated not in (expect, "AllAnswered", "temporal"):
             raise tlc.TlcError(f"vacuity self-test: Nested.tla with a limit of {lim} message threads does not deadlock (got {rn.violated})")
     rep.notes["bounded_message_threads_violate"] = "NoDeadlock (Nested.tla)"
+    for j in range(3 if rep.tier == "quick" else 40):
+        ev = []
+        seed = rng.getrandbits(30)
+        verdict = run_many_nested(seed, 3, events=ev)
+        rep.case(("nested-trace", j))
+        if verdict:
+            rep.violation(verdict, {"kind": "many-nested", "seed": seed, "n": 3})
+            break
+        validate_nested(rep, ev, 3)
     for n in ((90,) if rep.tier == "quick" else (45, 90, 130)):
         seed = rng.getrandbits(30)
         verdict = run_many_nested(seed, n)
@@ -601,7 +610,50 @@ def run_late_duplicate(seed, router_cls=c13.Router):
     return ("a repeated answer on one interface while the same Hop-by-Hop is outstanding on another: " + "; ".join(problems)) if problems else None
 
 
-def run_many_nested(seed, n, router_cls=c13.Router):
+TRACE_NESTED = r"""---- MODULE Trace_Nested ----
+EXTENDS Nested, Json, TLCExt, IOUtils
+Tr == JsonDeserialize(TRACEFILE)
+VARIABLE l
+ASSUME TLCSet(1, 0)
+TraceInit == l = 0 /\ Init
+Act(e) == CASE e.a = "take" -> (MainTake /\ (IF inQ # <<>> THEN Head(inQ) ELSE Head(inQ2)) = <<e.k, e.r>>)
+            [] e.a = "reg" -> Reg(e.r) [] e.a = "send" -> Send(e.r) [] e.a = "wake" -> Wake(e.r) [] e.a = "answer" -> Answer(e.r)
+            [] e.a = "backend" -> BackEnd(e.r)
+            [] e.a = "check" -> (Check(e.r) /\ (dpc'[e.r] = "notify") = e.found)
+            [] e.a = "notify" -> Notify(e.r)
+TraceNext == l < Len(Tr) /\ l' = l + 1 /\ Act(Tr[l + 1])
+TraceSpec == TraceInit /\ [][TraceNext]_<<vars, l>>
+Progress == IF l > TLCGet(1) THEN TLCSet(1, l) ELSE TRUE
+Accepted == PrintT(<<"PROGRESS", TLCGet(1), Len(Tr)>>)
+====
+"""
+
+
+def validate_nested(rep, events, n):
+    """TLC trace validation of one recorded execution of run_many_nested against Nested.tla (no thread limit)"""
+    wd = tlc.workdir("Trace_Nested")
+    try:
+        tf = os.path.join(wd, "trace.json")
+        json.dump(events, open(tf, "w"))
+        cfg = f"SPECIFICATION TraceSpec\nCONSTANTS N = {n}\n Limit = {4 * n}\nINVARIANT NoDeadlock\nCONSTRAINT Progress\nPOSTCONDITION Accepted\nCHECK_DEADLOCK FALSE\n"
+        res, _ = tlc.run("Trace_Nested", cfg, extra_modules={"Trace_Nested": TRACE_NESTED.replace("TRACEFILE", T(tf))}, wd=wd, workers=1, timeout=900)
+        rep.tlc(f"Trace_Nested N={n}", res)
+        m = re.search(r'<<\s*"PROGRESS"', res.out)
+        if not m:
+            tlc.must_ok(res, "Trace_Nested")
+            raise tlc.TlcError("Trace_Nested: no progress line\n" + res.out[-1500:])
+        val, _ = tlaval.parse_at(res.out, m.start())
+        if val[1] == val[2]:
+            rep.traces_validated += 1
+        else:
+            rep.nonprop_differences += 1
+            rep.notes.setdefault("unexplained_divergences", []).append({"module": "Nested", "event": val[1] + 1,
+                                                                        "next_event": events[val[1]] if val[1] < len(events) else None})
+    finally:
+        tlc.cleanup(wd)
+
+
+def run_many_nested(seed, n, router_cls=c13.Router, events=None):
     """n requests arrive on one interface; each route function sends a request of its own on the other interface and waits for its
     answer; the back-end answers only when all n are in flight (a slow peer, a burst).  The library's own Bromelia.main loop reads
     the workers' queues and starts the threads.  Every nested caller must be woken with its own answer and all n requests answered -
@@ -623,16 +675,48 @@ def run_many_nested(seed, n, router_cls=c13.Router):
 
     # (requests are built beforehand: drawing identifiers takes the library's real identifiers lock around a scheduler yield point)
     subs = {k: c13.make_request("a2", "c2", 1000 + k, rng) for k in range(1, n + 1)}
+    log = events.append if events is not None else (lambda e: None)
+    sub_of = {subs[k].header.hop_by_hop: k for k in subs}
 
     def handler(request):
         k = int(request.user_name_avp.data[4:])
         sub = subs[k]
         ans = app.send_message(sub)
+        log({"a": "wake", "r": k})
         got[k] = ans is not None and not ans.header.is_request() and ans.header.hop_by_hop == sub.header.hop_by_hop
         return c13.make_answer(request, rng)
     router.register(c13.app_bytes("a1"), c13.cmd_bytes("c1"), handler)
-    w1.app = AppProxy(w1.app, front_out.append)
-    w2.app = AppProxy(w2.app, nested.append)
+
+    def front(m):
+        front_out.append(m)
+        if not m.header.is_request():
+            log({"a": "answer", "r": next((k for k, q in enumerate(reqs, 1) if q.header.hop_by_hop == m.header.hop_by_hop), 0)})
+
+    def back(m):
+        nested.append(m)
+        log({"a": "send", "r": sub_of.get(m.header.hop_by_hop, 0)})
+    w1.app = AppProxy(w1.app, front)
+    w2.app = AppProxy(w2.app, back)
+    if events is not None:
+        def dlog(a, key, found):
+            k = sub_of.get(key, 0)
+            if a == "reg":
+                log({"a": "reg", "r": k})
+            elif a == "check":
+                log({"a": "check", "r": k, "found": bool(found)})
+            elif a == "pop":
+                log({"a": "notify", "r": k})
+        TracedDict.log = dlog
+        w2.pending_answers = TracedDict()
+        for w, kind in ((w1, "req"), (w2, "ans")):
+            oget = w.recv_queue.get
+
+            def get(*a, _o=oget, kind=kind, **kw):
+                m = _o(*a, **kw)
+                r = int(m.user_name_avp.data[4:]) if kind == "req" else sub_of.get(m.header.hop_by_hop, 0)
+                log({"a": "take", "k": kind, "r": r})
+                return m
+            w.recv_queue.get = get
     lib = [s.spawn("send_handler1", w1.send_handler), s.spawn("send_handler2", w2.send_handler), s.spawn("bromelia_main", app.main)]
     reqs = [c13.make_request("a1", "c1", k, rng) for k in range(1, n + 1)]
     out = "ok"
@@ -644,6 +728,7 @@ def run_many_nested(seed, n, router_cls=c13.Router):
             out = f"only {len(nested)} of {n} route functions got as far as sending their own request"
         else:
             for sub in nested[:n]:
+                log({"a": "backend", "r": sub_of.get(sub.header.hop_by_hop, 0)})
                 w2.notify_incoming_message(DiameterAnswer(header=sub.header, avps=[ResultCodeAVP(2001)]))
             s.run(until=lambda: len([m for m in front_out if not m.header.is_request()]) >= n, max_steps=300000)
     except vsched.Deadlock as e:
@@ -654,6 +739,7 @@ def run_many_nested(seed, n, router_cls=c13.Router):
     woken = sum(1 for v in got.values() if v)
     dead = [(t.name, f"{type(t.exc).__name__}: {t.exc}") for t in lib if t.done]
     s.kill_all()
+    TracedDict.log = None
     if out != "ok" or answered != n or woken != n or dead:
         return (f"{n} route functions each waiting for the answer to a request of their own: {woken} were woken with their own answer, {answered} of the {n} "
                 f"requests were answered ({out}); library loops that ended: {dead}")
